@@ -176,6 +176,9 @@ func (x *hpTr) block(c *hpCtx, list []ast.Stmt, k hpCont) (string, error) {
 		return k(c)
 	}
 	s := list[0]
+	if x.effectPending != "" {
+		return "", hpErr(s, "dictionary call with an effect outside an assignment")
+	}
 	rest := func(c *hpCtx) (string, error) { return x.block(c, list[1:], k) }
 	if kind := x.ignorable(c, s); kind != "" {
 		if strings.HasPrefix(kind, "session effect") {
@@ -284,6 +287,8 @@ func (x *hpTr) retStmt(c *hpCtx, v *ast.ReturnStmt) (string, error) {
 			vals = append(vals, "none")
 		case val.kind == "nil" && kind == "err":
 			vals = append(vals, "false")
+		case val.kind == "nil" && kind == "perr":
+			vals = append(vals, "none")
 		case val.kind == kind:
 			if x.d.ptrKinds[kind] && kind != "host" && val.st != hpNonNil {
 				return "", hpErr(v, "returned pointer may be nil or is not stored in a table")
@@ -487,7 +492,19 @@ func (x *hpTr) assign(c *hpCtx, v *ast.AssignStmt) (string, error) {
 		}
 		vals = append(vals, val)
 	}
-	return x.bindAll(c, v.Lhs, vals, v.Tok == token.DEFINE)
+	pre := ""
+	if x.effectPending != "" {
+		if len(v.Rhs) != 1 {
+			return "", hpErr(v, "dictionary call with an effect in a parallel assignment")
+		}
+		if _, ok := v.Rhs[0].(*ast.CallExpr); !ok {
+			return "", hpErr(v, "dictionary call with an effect nested in an expression")
+		}
+		pre = x.effectPending + "\n"
+		x.effectPending = ""
+	}
+	out, err := x.bindAll(c, v.Lhs, vals, v.Tok == token.DEFINE)
+	return pre + out, err
 }
 
 func (x *hpTr) bindAll(c *hpCtx, lhs []ast.Expr, vals []hpVal, define bool) (string, error) {
@@ -535,6 +552,9 @@ func (x *hpTr) callStmt(c *hpCtx, call *ast.CallExpr, lhs []ast.Expr, define boo
 	app, err := x.apply(c, g, call)
 	if err != nil {
 		return "", err
+	}
+	if g.sends {
+		return "", hpErr(call, "call of %s, which writes to the connection", g.lean)
 	}
 	if lhs != nil && len(lhs) != len(g.results) {
 		return "", hpErr(call, "%d targets for %d results", len(lhs), len(g.results))
@@ -747,6 +767,11 @@ func (x *hpTr) switchStmt(c *hpCtx, v *ast.SwitchStmt, rest hpCont) (string, err
 				return "", err
 			}
 			if tag != nil {
+				if val.kind != tag.kind && tag.kind == "int" {
+					if n, ok := constNat(x.info, e); ok {
+						val = hpVal{lean: fmt.Sprintf("(%d : Nat)", n), kind: "int"}
+					}
+				}
 				if val.kind != tag.kind {
 					return "", hpErr(e, "case of kind %s for a tag of kind %s", val.kind, tag.kind)
 				}
@@ -811,6 +836,11 @@ func (x *hpTr) joinable(c *hpCtx, body *ast.BlockStmt, els ast.Stmt) ([]string, 
 		case *ast.CallExpr:
 			if g := x.calleeOf(v); g != nil && g.hangs {
 				bad = true
+			}
+			if id, ok := v.Fun.(*ast.Ident); ok {
+				if ent, ok := x.d.calls[id.Name]; ok && ent.effect != "" {
+					bad = true
+				}
 			}
 		}
 		return true
